@@ -1,10 +1,9 @@
-import Driver.Util
+import Driver.KV
 
-/-! Placeholder: the line-protocol driver of domain C06 is not written yet. -/
+/-! Domain C06: every data request of a sequential history is answered from `Hv.Data.Model`;
+    a reply is flagged when it (or the resulting store) deviates from `Hv.Data.Spec`. -/
 namespace Driver.C06
 
-def run (_args : List String) : IO UInt32 := do
-  IO.eprintln "drv: domain C06 has no driver yet"
-  return 2
+def run (args : List String) : IO UInt32 := Driver.KV.run "C06" .c06 args
 
 end Driver.C06
